@@ -20,7 +20,7 @@ VERIF = facts.VERIF
 # properties whose rules identify every local variable structurally (by type, definition or role), never by spelling;
 # for these the thorough tier re-runs the rules on facts in which every user local / parameter / captured variable
 # of the crate is renamed, and requires the same verdict for every obligation (and the same mutants detected)
-RENAME_PROOF = {"C01", "C02", "C03", "C04", "C05", "C06", "C07", "C08", "C09", "C10", "C11", "C12", "C13", "C15", "C16", "C17", "C18", "C19", "C20"}
+RENAME_PROOF = {"C01", "C02", "C03", "C04", "C05", "C06", "C07", "C08", "C09", "C10", "C11", "C12", "C13", "C14", "C15", "C16", "C17", "C18", "C19", "C20"}
 
 
 def renamed(data):
